@@ -679,8 +679,11 @@ func (u *UlimitsConfig) MarshalJSON() ([]byte, error) {
 	if u.Single != 0 {
 		return json.Marshal(u.Single)
 	}
-	// Pass as a value to avoid re-entering this method and use the default implementation
-	return json.Marshal(*u)
+	// soft and hard are both rendered even when zero (`core: {soft: 0, hard: 0}`): the schema requires them
+	return json.Marshal(struct {
+		Soft int `json:"soft"`
+		Hard int `json:"hard"`
+	}{Soft: u.Soft, Hard: u.Hard})
 }
 
 // NetworkConfig for a network
